@@ -76,9 +76,75 @@ def segs_of(case):
     return out
 
 
+def _pad(prefix: bytes, ch: str, ln: int, suffix: bytes = b"") -> bytes:
+    """a line of exactly `ln` bytes: prefix, as many copies of the character `ch` as fit, ASCII filling, suffix"""
+    w = ch.encode()
+    room = ln - len(prefix) - len(suffix)
+    assert room >= 0
+    body = w * (room // len(w))
+    return prefix + body + b"a" * (room - len(body)) + suffix
+
+
+def wide_streams():
+    """request lines made of multi-byte characters (2, 3 and 4 bytes each) whose BYTE length lies just below, at and above the limit
+    while their length in characters (or UTF-16 units) stays far below it - the limit is one of bytes, however the line arrives.
+    Gemini, Titan with content, Titan delete, and an over-long line that is not UTF-8 at all.  Each with the segmentations that
+    matter for a length limit: read boundaries around byte 1024, around the line end, inside a character, chunks of 512 / 100 bytes."""
+    out = []
+    for ch in ("\u00e9", "\u20ac", "\U0001f600"):
+        for ln in (LIMIT - 3, LIMIT - 2, LIMIT - 1, LIMIT, LIMIT + 1, LIMIT + 6, LIMIT + 76, 2 * LIMIT - 48):  # without the CRLF
+            for kind in range(4):
+                if kind == 0:
+                    stream = _pad(b"gemini://h/", ch, ln) + b"\r\n"
+                elif kind == 1:
+                    stream = _pad(b"titan://h/", ch, ln, b";size=2") + b"\r\nab"
+                elif kind == 2:
+                    if ln % 3:
+                        continue
+                    stream = _pad(b"titan://h/", ch, ln, b";size=0") + b"\r\n"
+                else:
+                    if ln < LIMIT or ln % 2:
+                        continue
+                    stream = _pad(b"gemini://h/\xff\xfe", ch, ln) + b"\r\n"
+                e, m = ln, len(stream)
+                pos = sorted({p for p in (1, 11, 12, 13, LIMIT - 2, LIMIT - 1, LIMIT, LIMIT + 1, LIMIT + 2, e - 2, e - 1, e, e + 1, e + 2, e + 3) if 0 < p < m})
+                cuts = [[p] for p in pos]
+                cuts += [c for c in line_end_cuts(stream) if len(c) > 1]
+                cuts += [[a, b] for a in (LIMIT - 1, LIMIT, LIMIT + 1) for b in (e, e + 1) if 0 < a < b < m]
+                cuts += [list(range(k, m, k)) for k in (512, 100, 7)]
+                out.append((stream, cuts))
+    return out
+
+
+def slow_streams():
+    """valid requests that arrive in MANY reads: the whole stream one byte per read, in reads of 2 / 3 / 7 bytes, and the first k bytes
+    one by one followed by the rest in one read, for lines from a few dozen bytes up to the longest legal one (a Gemini request, a
+    Titan upload whose content also arrives byte by byte, a request followed by trailing bytes)."""
+    out = []
+    for ln in (40, 63, 64, 65, 66, 100, 127, 128, 129, 200, 255, 256, 257, 300, 511, 512, 513, 700, 1000, LIMIT - 3, LIMIT - 2):
+        streams = [_pad(b"gemini://h/", "a", ln) + b"\r\n"]
+        if ln % 2 == 0 or ln > 1000:
+            streams.append(_pad(b"titan://h/", "f", ln, b";size=2") + b"\r\nab")
+        if ln in (64, 256, 700):
+            streams.append(_pad(b"gemini://h/", "\u00e9", ln) + b"\r\nGARBAGE\r\n")
+            streams.append(_pad(b"titan://h/", "f", ln, b";size=6") + b"\r\nabcdefXY")
+        for stream in streams:
+            m = len(stream)
+            cuts = [list(range(k, m, k)) for k in (1, 2, 3, 7)]
+            cuts += [list(range(1, k + 1)) for k in (31, 62, 63, 64, 65, 99, 100, 127, 128, 129, 255, 256, 257, 511, 512, 513, 999, 1000) if k < m - 1]
+            cuts.append(list(range(2, m, 2)) if m % 2 else list(range(1, m, 2)))
+            out.append((stream, cuts))
+    # few bytes of request line, many reads of content
+    for size in (70, 130, 300):
+        stream = b"titan://h/f;size=%d\r\n" % size + bytes(65 + i % 26 for i in range(size)) + b"tail"
+        m = len(stream)
+        out.append((stream, [list(range(k, m, k)) for k in (1, 2, 5)] + [[stream.index(b"\n") + 1] + list(range(stream.index(b"\n") + 2, m))]))
+    return out
+
+
 def show_seg(seg):
     """a segmentation, readable: the length of every read, and the bytes of the short ones"""
-    return "[" + ", ".join(x if len(x) <= 24 else f"{x[:8]}…{x[-8:]}({len(x) // 2}B)" for x in seg[:8]) + (", …" if len(seg) > 8 else "") + "]"
+    return "[" + ", ".join(x if len(x) <= 24 else f"{x[:8]}…{x[-8:]}({len(x) // 2}B)" for x in seg[:8]) + (f", … ({len(seg)} reads, the last of {len(seg[-1]) // 2} B)" if len(seg) > 8 else "") + "]"
 
 
 class Seg(ConnFamily):
@@ -93,9 +159,11 @@ class Seg(ConnFamily):
         shorts = [b"gemini://h/\r\n", b"titan://h/f;size=2\r\nab", b"titan://h/f;size=0\r\n", b"titan://h/f;size=2\r\nabXY", b"gemini://h/\r\nGARBAGE\r\n",
                   b"\r\n", b"gemini://h/a\r", b"http://h/\r\n", b"titan://h/f;size=3\r\nab", b"titan://h/f;size=11\r\nhello world", b"titan://h/f;size=9\r\n12345678"]
         limits = limit_streams()
-        first = list(self.share(range(len(shorts) * 2 + len(limits))))
+        extra = wide_streams() + slow_streams()
+        ndet = len(shorts) * 2 + len(limits) + len(extra)
+        first = list(self.share(range(ndet)))
         for j in range(max(n, len(first))):
-            i = first[j] if j < len(first) else len(shorts) * 2 + len(limits) + j
+            i = first[j] if j < len(first) else ndet + j
             mw = rng.random() < 0.4
             up = rng.random() < 0.7
             hk = rng.choice(["s", "a", "a", "r"])
@@ -127,6 +195,11 @@ class Seg(ConnFamily):
                 cuts = [[c] for c in (range(1, m) if every else range(max(1, m - 40), m))]
                 cuts += [c for c in line_end_cuts(stream) if len(c) > 1]
                 cuts.append(list(range(max(1, m - 12), m)))  # the last bytes one by one
+            elif i < ndet:
+                # multi-byte lines around the byte limit / valid requests delivered in very many reads, each against the one-read delivery
+                stream, cuts = extra[i - len(shorts) * 2 - len(limits)]
+                segs = [[stream.hex()]]
+                up = True
             else:
                 line = rng.choice(LINES)
                 tail = b"" if rng.random() < 0.3 else bytes(rng.randrange(256) for _ in range(rng.randint(0, 20)))
